@@ -42,6 +42,7 @@ m("c10-single-output-generator-object", "C10", R, "    single = outputsN == 1 an
 m("c01-shm-key-concatenation", "C01", "src/cascade/executor/runner/memory.py", "    h.update(f\"{len(ds.task)}:{ds.task}{ds.output}\".encode())\n", "    h.update((ds.task + ds.output).encode())\n", "shm key = md5(task + output) again (the repaired defect): (t1, 10) and (t11, 0) collide")
 m("c10-one-edge-per-input-name", "C10", "src/cascade/low/into.py", "            for position in rev_lookup[param]:\n", "            for position in rev_lookup[param][-1:]:\n", "an input occupying two argument positions is wired at the last one only (the repaired defect)")
 m("c09-failed-pagein-via-purge", "C09", "src/cascade/shm/dataset.py", "                try:\n                    shm = SharedMemory(ds.shmid, create=False)\n                    shm.unlink()\n                    shm.close()\n                except FileNotFoundError:\n                    pass\n                with self.pageout_one:\n                    self.free_space += ds.size\n                self.datasets.pop(key, None)\n", "                self.purge(key)\n", "failed page-in cleans up through purge() again (the repaired defect): stuck in paged_in when no segment exists")
+m("c05-shm-server-stopped-before-data-server", "C05", EXEC, "            self.data_server.kill()\n            self.data_server.join()\n", "            pass\n", "data server is not stopped before the shm server (nor at all): teardown order / leaked process")
 m("c10-sort-outputs-again", "C10", R, "    outputs = list(task.definition.output_schema.items())\n", "    outputs = sorted(task.definition.output_schema.items())\n", "generator outputs bound in key-sorted order again (the repaired defect)")
 m("c05-healthcheck-after-shutdown", "C05", EXEC, "                if self.terminating:\n                    # orderly shutdown: the children have just been stopped on purpose\n                    break\n", "", "health check runs again after an orderly shutdown (spurious ExecutorFailure; equivalent for C05)")
 # ---- C02 ------------------------------------------------------------------------------------------------
